@@ -513,6 +513,9 @@ def seq_contains(ex, st, seq, x, node):
 
 # ============================================================================ sequences
 def as_seq(ex, st, v, node):
+    if isinstance(v, ty.OptV):
+        ex.safety(st, "none-iterated", z3.Not(v.isnone), node)
+        return as_seq(ex, st, v.val, node)
     if isinstance(v, ty.SeqV):
         return v
     if isinstance(v, ty.MapV) and v.keys is not None:
@@ -742,6 +745,9 @@ def value_attr(ex, st, v, attr, node):
         return _out(v, st)
     if isinstance(v, ty.SeqV) and attr == "shape":
         return _out((v.len,), st)
+    if isinstance(v, (ty.SeqV, ty.MatV)) and attr in ("sum", "dot"):
+        from . import nplib
+        return _out(Intrinsic("ndarray." + attr, nplib.nd_sum if attr == "sum" else nplib.nd_dot, recv=v), st)
     if isinstance(v, ty.SeqV) and attr == "dtype":
         return _out({"Bool": "bool", "Int": "int64", "Real": "float64"}.get(repr(v.elem), "object"), st)
     if isinstance(v, str) and attr == "format":
@@ -1487,6 +1493,9 @@ MODULE_FUNCS = {
     "copy.deepcopy": lambda ex, st, a, k, n: __import__("pyvc.copylib", fromlist=["x"]).m_deepcopy(ex, st, a, k, n),
     "pandas.DataFrame": lambda ex, st, a, k, n: __import__("pyvc.pdlib", fromlist=["x"]).dataframe(ex, st, a, k, n),
     "pandas.concat": lambda ex, st, a, k, n: __import__("pyvc.pdlib", fromlist=["x"]).concat(ex, st, a, k, n),
+    "numpy.max": lambda ex, st, a, k, n: __import__("pyvc.nplib", fromlist=["x"]).np_max(ex, st, a, k, n),
+    "numpy.mean": lambda ex, st, a, k, n: __import__("pyvc.nplib", fromlist=["x"]).np_mean(ex, st, a, k, n),
+    "numpy.vstack": lambda ex, st, a, k, n: __import__("pyvc.nplib", fromlist=["x"]).np_vstack(ex, st, a, k, n),
     "numpy.append": lambda ex, st, a, k, n: __import__("pyvc.nplib", fromlist=["x"]).np_append(ex, st, a, k, n),
     "numpy.delete": lambda ex, st, a, k, n: __import__("pyvc.nplib", fromlist=["x"]).np_delete(ex, st, a, k, n),
     "datetime.timedelta": lambda ex, st, a, k, n: __import__("pyvc.timelib", fromlist=["x"]).m_timedelta(ex, st, a, k, n),
